@@ -10,6 +10,7 @@ import (
 	"fmt"
 	"go/token"
 	"go/types"
+	"regexp"
 	"sort"
 	"strings"
 
@@ -71,6 +72,53 @@ type gctx struct {
 	spill   map[ssa.Value]bool // locals holding a copy of the (struct-valued) clause variable
 	depth   int
 	rawMake bool
+	// bind: values of an inlined helper (its parameters, and the locals they are spilled to) standing for an operand
+	// of the calling clause, with that operand's class
+	bind map[ssa.Value]string
+}
+
+var vTokenRe = regexp.MustCompile(`\bv\b`)
+
+// vDerived: the class is computed from the clause variable
+func vDerived(c string) bool { return !strings.Contains(c, "?") && vTokenRe.MatchString(c) }
+
+// bindParams: the context of a helper called from a clause with the given argument classes
+func (g *gctx) bindParams(callee *ssa.Function, args []ssa.Value) *gctx {
+	vals := map[ssa.Value]bool{}
+	bind := map[ssa.Value]string{}
+	for i, a := range args {
+		if i >= len(callee.Params) {
+			break
+		}
+		c := g.cls(a)
+		if c == "v" {
+			vals[callee.Params[i]] = true
+		} else if vDerived(c) {
+			bind[callee.Params[i]] = c
+		}
+	}
+	sub := newGctx(callee, vals)
+	sub.depth = g.depth
+	sub.bind = bind
+	for v, c := range bind {
+		for _, r := range referrers(v) {
+			if st, ok := r.(*ssa.Store); ok && st.Val == v {
+				if a, ok := st.Addr.(*ssa.Alloc); ok {
+					// a spilled parameter that is never re-assigned still stands for the argument
+					n := 0
+					for _, r2 := range referrers(a) {
+						if st2, ok := r2.(*ssa.Store); ok && st2.Addr == ssa.Value(a) {
+							n++
+						}
+					}
+					if n == 1 {
+						sub.bind[a] = c
+					}
+				}
+			}
+		}
+	}
+	return sub
 }
 
 func newGctx(fn *ssa.Function, vals map[ssa.Value]bool) *gctx {
@@ -105,6 +153,9 @@ func (g *gctx) cls(v ssa.Value) string {
 	if g.vals[v] {
 		return "v"
 	}
+	if c, ok := g.bind[v]; ok {
+		return c
+	}
 	switch x := v.(type) {
 	case *ssa.MakeInterface:
 		return g.cls(x.X)
@@ -131,6 +182,9 @@ func (g *gctx) cls(v ssa.Value) string {
 				}
 				if g.vals[a] {
 					return "*v"
+				}
+				if c, ok := g.bind[a]; ok {
+					return c
 				}
 				return a.Comment
 			}
@@ -172,6 +226,30 @@ func (g *gctx) cls(v ssa.Value) string {
 		}
 		if _, ok := x.Tuple.(*ssa.Next); ok {
 			return "elem(range)"
+		}
+		// (value, error) helper handed operands of the clause: on success its value is what its own success returns
+		// compute, classified in its body with the parameters standing for the arguments
+		if c, ok := x.Tuple.(*ssa.Call); ok && x.Index == 0 && g.depth < 8 {
+			callee := staticCallee(&c.Call)
+			if callee != nil && callee.Blocks != nil && callee.Pkg == g.fn.Pkg && callee != g.fn && callee.Signature.Results().Len() == 2 {
+				sub := g.bindParams(callee, c.Call.Args)
+				if len(sub.vals) > 0 || len(sub.bind) > 0 {
+					set := map[string]bool{}
+					for _, rt := range returnsOf(callee) {
+						if len(rt.Results) != 2 || !isNilConst(rt.Results[1]) {
+							continue
+						}
+						set[sub.cls(rt.Results[0])] = true
+					}
+					if len(set) == 1 {
+						for k := range set {
+							if !strings.Contains(k, "?") {
+								return k
+							}
+						}
+					}
+				}
+			}
 		}
 	case *ssa.Slice:
 		lo := ""
@@ -450,17 +528,11 @@ func clauseEvents(fn *ssa.Function, blocks []*ssa.BasicBlock, g *gctx, role stri
 					case "(*p9p.encoder).encode", "(*p9p.decoder).decode", "p9p.size9p", "p9p.fields9p", "p9p.newMessage":
 						break
 					default:
-						vals := map[ssa.Value]bool{}
-						for i, a := range x.Call.Args {
-							if i < len(callee.Params) && g.cls(a) == "v" {
-								vals[callee.Params[i]] = true
-							}
-						}
-						if len(vals) == 0 {
+						sub := g.bindParams(callee, x.Call.Args)
+						if len(sub.vals) == 0 && len(sub.bind) == 0 {
 							break
 						}
 						inlineDepth++
-						sub := newGctx(callee, vals)
 						evs, ns := clauseEvents(callee, callee.Blocks, sub, role)
 						inlineDepth--
 						for _, e := range evs {
